@@ -519,6 +519,13 @@ func clipIov(iov *syscall.Iovec, cnt, max int) []syscall.Iovec {
 
 const errRet = ^uintptr(0)
 
+// The uintptr arguments are pointers converted at the call site (netpoll passes the address of
+// stack variables such as its msghdr and epoll event). This function parks the goroutine, and a
+// parked goroutine's stack may be moved; uintptrescapes makes the compiler put those objects on
+// the heap and keep them alive for the duration of the call, as it does for the real syscall
+// entry points.
+//
+//go:uintptrescapes
 //go:norace
 func RawSyscall(trap, a1, a2, a3 uintptr) (uintptr, uintptr, syscall.Errno) {
 	switch trap {
@@ -627,6 +634,13 @@ type epollEvent struct {
 	data   [8]byte
 }
 
+// The uintptr arguments are pointers converted at the call site (netpoll passes the address of
+// stack variables such as its msghdr and epoll event). This function parks the goroutine, and a
+// parked goroutine's stack may be moved; uintptrescapes makes the compiler put those objects on
+// the heap and keep them alive for the duration of the call, as it does for the real syscall
+// entry points.
+//
+//go:uintptrescapes
 //go:norace
 func RawSyscall6(trap, a1, a2, a3, a4, a5, a6 uintptr) (uintptr, uintptr, syscall.Errno) {
 	switch trap {
@@ -678,6 +692,13 @@ func epollWait(a1, a2, a3 uintptr) (uintptr, uintptr, syscall.Errno) {
 	return r, r2, e
 }
 
+// The uintptr arguments are pointers converted at the call site (netpoll passes the address of
+// stack variables such as its msghdr and epoll event). This function parks the goroutine, and a
+// parked goroutine's stack may be moved; uintptrescapes makes the compiler put those objects on
+// the heap and keep them alive for the duration of the call, as it does for the real syscall
+// entry points.
+//
+//go:uintptrescapes
 //go:norace
 func Syscall(trap, a1, a2, a3 uintptr) (uintptr, uintptr, syscall.Errno) {
 	switch trap {
@@ -698,6 +719,13 @@ func Syscall(trap, a1, a2, a3 uintptr) (uintptr, uintptr, syscall.Errno) {
 	return syscall.Syscall(trap, a1, a2, a3)
 }
 
+// The uintptr arguments are pointers converted at the call site (netpoll passes the address of
+// stack variables such as its msghdr and epoll event). This function parks the goroutine, and a
+// parked goroutine's stack may be moved; uintptrescapes makes the compiler put those objects on
+// the heap and keep them alive for the duration of the call, as it does for the real syscall
+// entry points.
+//
+//go:uintptrescapes
 //go:norace
 func Syscall6(trap, a1, a2, a3, a4, a5, a6 uintptr) (uintptr, uintptr, syscall.Errno) {
 	switch trap {
